@@ -305,11 +305,18 @@ def check(ctx):
                           "initial model states (tracked keys, per chain) with a time axis",
            ok, detail=short(apps[0]) if apps else "no append", stmt="initial sample")
     sne_ = method(repo, eng, "sample_next_epoch")
-    rsn = evaluate(repo, sne_)
+    from ..core.terms import make_inliner
+    rsn = evaluate(repo, sne_, inline=make_inliner(
+        repo, self_class=eng, allow=lambda f: f.name == "_handle_inital_values_epoch"),
+        inline_depth=1)
     type_t = ("a", ("a", ("a", SELF, "current_epoch"), "config"), "type")
     INIT_ = ("cmp", "==", type_t, ("g", f"{ETYPE}.INITIAL_VALUES"))
+    # (the helper may be called or written out in place: its effect is what counts)
     hcalls = [cond for t, _, cond in rsn.calls
-              if t == ("call", ("a", SELF, "_handle_inital_values_epoch"), (), ())]
+              if t[0] == "call" and t[1] == ("a", ("a", SELF, "_position_chain"), "append")
+              and apps and t[2] == apps[0][2]]
+    assumed = {(rc[-1][0], not rc[-1][1]) for rc, _, _ in rsn.raises if rc}
+    hcalls = [[(a, p_) for a, p_ in cd if (a, p_) not in assumed] for cd in hcalls]
     ctx.ob("C08.R4", sne_, "sample_next_epoch records the initial values exactly when the "
                            "epoch is the INITIAL_VALUES epoch", len(hcalls) == 1
            and [(a, p_) for a, p_ in hcalls[0]] == [(INIT_, True)],
